@@ -120,6 +120,13 @@ CHECKS = {
         "Trusted: snapshot read-out; fastapi.testclient in-process; /switch-app/{id} skipped (monitor-local selection).",
         "DESIGN.md 3 C20, A.14",
     ),
+    "C18": (
+        "exploration",
+        "Hypothesis histories of workflow scripts and re-execution plans (same-process retries, recovery re-runs, fresh process images, sequential and scheduler-driven concurrent interleavings of several workflows of one task) + a real sub-process slice; replay oracle",
+        "Each generated history runs 1-3 workflows of the same interpreter task (scripts of random / utc_now / uuid / execute_task operations) through the real DistributedInvocation.run path under a plan of retries, died-and-recovered executions, fresh Pynenc/Task objects on the same SQLite file and executions of the sub-tasks in between, sequentially or as concurrent scheduler actors: the n-th value of every attempt equals the first attempt's, an identical sub-task call returns the same invocation and exists once, workflows share neither children nor uuids. A real second process with another PYTHONHASHSEED replays with and without the recorded values.",
+        "Trusted: harness-side log of the values each body execution observed; body execution = PENDING + fresh invocation object + run(); with a collapsing (registration-concurrency) sub-task cross-workflow sharing is by design and not checked.",
+        "DESIGN.md 3 C18, A.12",
+    ),
 }
 
 NOT_YET = "check not built yet in this session (work in progress, see DESIGN.md section 3)"
